@@ -223,6 +223,32 @@ CLOSURE_PREV = {"(", ",", "=", "{", ";", "=>", "return", "move", "[", ":"}
 BINOPS = {"+", "-", "*", "/", "%", "&", "|", "^", "<", ">", "==", "!=", "<=", ">=", "&&", "||"}
 
 
+MODS = None
+
+
+def repo_modules():
+    global MODS
+    if MODS is None:
+        MODS = set()
+        for root, dirs, files in os.walk(os.path.join(REPO, "src")):
+            for f in files:
+                if f.endswith(".rs"):
+                    MODS.add(f[:-3])
+            for d in dirs:
+                MODS.add(d)
+    return MODS
+
+
+def strip_module_paths(text, stats):
+    """N13: `crate::<module>::Item` -> `Item` (a single-file unit has every item in the crate root)"""
+    mods = "|".join(sorted(repo_modules(), key=len, reverse=True))
+    pat = re.compile(r"\bcrate\s*::\s*(?:(?:%s)\s*::\s*)+" % mods)
+    new, n = pat.subn("", text)
+    if n:
+        stats.count("N13", n)
+    return new
+
+
 class Stats:
     def __init__(self):
         self.norm = {}
@@ -416,10 +442,28 @@ def emit_fn(out, entry, mode, stats, canary=False):
             c0, c1, bl, bh, block = closures[k - 1]
             hdr = m.group(2)
             move = ""
+            prelude = ""
+            mp = re.match(r"pat=(\w+)\s+(.*)$", hdr)
+            if mp:
+                # N14: Verus accepts only variables as closure parameters: `|PAT| body` => `|v: T| { let PAT = v; body }`
+                hdr = mp.group(2)
+                if toks[c0].text != "|":
+                    raise LostAnchor(f"{entry.id}: closure#{k} has no parameter to destructure")
+                # original parameter text between the bars
+                bar2 = None
+                for x in range(c0 + 1, c1 + 1):
+                    if toks[x].kind == PUNCT and toks[x].text == "|":
+                        bar2 = x
+                        break
+                orig = "".join(t.text for t in toks[c0 + 1:bar2]).strip()
+                prelude = f"let {orig} = {mp.group(1)}; "
+                stats.count("N14")
             edits.append((c0, c1 + 1, move + hdr + "\n" + b.text().rstrip("\n") + "\n", vc_origin(b)))
             if not block:
-                edits.append((bl, bl, "{ ", dict(kind="gen", fn=entry.id)))
+                edits.append((bl, bl, "{ " + prelude, dict(kind="gen", fn=entry.id)))
                 edits.append((bh + 1, bh + 1, " }", dict(kind="gen", fn=entry.id)))
+            elif prelude:
+                edits.append((bl + 1, bl + 1, " " + prelude, dict(kind="gen", fn=entry.id)))
         # before / after
         for b in entry.block("before") + entry.block("after"):
             m = re.match(r'"(.*)"\s*(?:#(\d+))?$', b.arg)
@@ -558,12 +602,12 @@ def emit_fn(out, entry, mode, stats, canary=False):
             raise LostAnchor(f"{entry.id}: overlapping splice at token {lo}")
         if lo > pos:
             seg = "".join(t.text for t in toks[pos:lo] if not (t.kind == COMMENT and t.text.startswith("///")))
-            out.add(seg, kind="repo", file=entry.file, line=sf.line_of(toks[pos].start), fn=entry.id)
+            out.add(strip_module_paths(seg, stats), kind="repo", file=entry.file, line=sf.line_of(toks[pos].start), fn=entry.id)
         out.add(rep, **origin)
         pos = max(pos, hi)
     if pos <= last:
         seg = "".join(t.text for t in toks[pos:last + 1] if not (t.kind == COMMENT and t.text.startswith("///")))
-        out.add(seg, kind="repo", file=entry.file, line=sf.line_of(toks[pos].start), fn=entry.id)
+        out.add(strip_module_paths(seg, stats), kind="repo", file=entry.file, line=sf.line_of(toks[pos].start), fn=entry.id)
     out.add("\n", kind="gen")
     if not canary:
         text = sf.text[toks[kw].start:toks[last].end]
@@ -642,6 +686,7 @@ def emit_item(out, spec, stats):
                 raise LostAnchor(f"item {kind} {name}: subst source {m.group(1)!r} not found")
             acc = acc2
             stats.count((m.group(3) or "#N10").lstrip("#"), n)
+    acc = strip_module_paths(acc, stats)
     out.add(acc, kind="repo", file=relfile, line=sf.line_of(toks[it.kw].start), approx=True)
     out.add("\n", kind="gen")
     text = sf.text[toks[it.kw].start:toks[it.last].end]
